@@ -25,7 +25,7 @@ from . import c19_translate
 PRE_Q = ("From Coq Require Import QArith.\nFrom EsVerif.Common Require Import Base.\n"
          "From EsVerif.C19 Require Import ModelQ Spec Exec.\n")
 PRE_R = ("From Coq Require Import Reals Lra.\nFrom Interval Require Import Tactic.\n"
-         "From EsVerif.C19 Require Import Model Spec ProofsGeo.\nOpen Scope R_scope.\n")
+         "From EsVerif.C19 Require Import Model Spec ProofsGeo ProofsGeo2.\nOpen Scope R_scope.\n")
 
 STUBS = ("stub_legacy", "stub_new")
 REALS = ("legacy", "new")
@@ -180,6 +180,14 @@ def box_cases(ctx, scale=1):
         box([0.0, 360.0], [d0, d1], [r.random(), r.random()], [r.random(), r.choice([0.0, 1.0 - 2.0 ** -53])], "box/polar")
     box([359.9999, 360.0], [-1.0, 1.0], [r.random()], [r.random()], "box/seam")
     box([0.0, 1e-9], [-1e-9, 1e-9], [r.random()], [r.random()], "box/seam")
+    # system='xyz' combined with latitude ranges that are NOT symmetric about the equator (a mirrored z passes every symmetric box)
+    for d0, d1 in ((18.0, 25.0), (-60.0, -10.0), (0.0, 90.0), (-90.0, -89.0), (5.0, 5.0)):
+        a0 = float(r.randrange(0, 180))
+        # (a deviate that lands the point EXACTLY on a pole is left to system='eq': the xyz model certificate would need the
+        # square root of an enclosure straddling zero)
+        box([a0, a0 + r.choice([0.0, 30.0, 170.0, 180.0])], [d0, d1], [r.random()],
+            [r.choice([1.0 - 2.0 ** -53, r.random()] + ([0.0] if d1 < 90.0 else []))], "box/xyz-asymmetric", system="xyz")
+    box(None, [10.0, 80.0], [r.random()], [r.random()], "box/xyz-asymmetric", system="xyz")
     # input forms of the ranges / count: list, tuple, float64 / float32 / int64 arrays, python ints; `system` omitted vs
     # given as its default; positional call; numpy integer count
     k = 0
@@ -395,8 +403,29 @@ def box_lemmas(c, i, pt):
         st2 = "xyz_close (randsphere_xyz_R %s %s %s) (%s, %s, %s)" % (bx, cR(u1), cR(u2), cR(x), cR(y), cR(z))
         iv = "unfold uniform, d2r, sinslack; interval with (i_prec 80)"
         pr2 = "apply xyz_close_intro; [%s | %s | cbv zeta; split; [%s | split; [%s | %s]]]." % (vb, UNIT, iv, iv, iv)
-        # the property on an xyz output: unit vector whose z = sin(dec) lies in the box
-        return None, (st2, pr2), None
+        # the property on an xyz output (C19_box_xyz_unit_vector_in_box on floats): unit vector whose z = sin(dec) lies
+        # between the sines of the latitude limits, and, for boxes at most 180 deg wide, whose (x, y) lies in the longitude wedge
+        pt3 = "(%s, %s, %s)" % (cR(x), cR(y), cR(z))
+        narrow = (a1 - a0) <= 180.0
+        st1 = "box_xyz_fl %s %s %s" % (cR(d0), cR(d1), pt3) + (" /\\ lon_halfplanes_fl %s %s %s" % (cR(a0), cR(a1), pt3) if narrow else "")
+        ivx = "unfold d2r, sinslack; interval with (i_prec 80)"
+        pz = "unfold box_xyz_fl; split; [%s | split; %s]" % (ivx, ivx)
+        pl = "unfold lon_halfplanes_fl; split; %s" % ivx
+        pr1 = ("split; [%s | %s]." % (pz, pl)) if narrow else (pz + ".")
+        nz = ("unfold box_xyz_fl in Hz; destruct Hz as [Hn [Hlo Hhi]]; first "
+              "[ assert (Hc : %s < sin (d2r %s) - sinslack) by (%s); lra "
+              "| assert (Hc : sin (d2r %s) + sinslack < %s) by (%s); lra "
+              "| apply Rabs_le_inv in Hn; destruct Hn as [Hn1 Hn2]; first "
+              "[ assert (Hc : 4 * sinslack < %s * %s + %s * %s + %s * %s - 1) by (%s); lra "
+              "| assert (Hc : %s * %s + %s * %s + %s * %s - 1 < - (4 * sinslack)) by (%s); lra ] ]"
+              % (cR(z), cR(d0), ivx, cR(d1), cR(z), ivx, cR(x), cR(x), cR(y), cR(y), cR(z), cR(z), ivx,
+                 cR(x), cR(x), cR(y), cR(y), cR(z), cR(z), ivx))
+        nl = ("unfold lon_halfplanes_fl in Hl; destruct Hl as [Hl1 Hl2]; first "
+              "[ assert (Hc : %s * cos (d2r %s) - %s * sin (d2r %s) < - sinslack) by (%s); lra "
+              "| assert (Hc : %s * sin (d2r %s) - %s * cos (d2r %s) < - sinslack) by (%s); lra ]"
+              % (cR(y), cR(a0), cR(x), cR(a0), ivx, cR(x), cR(a1), cR(y), cR(a1), ivx))
+        neg = ("~ (" + st1 + ")", ("intros [Hz Hl]; first [ %s | %s ]." % (nz, nl)) if narrow else ("intros Hz; %s." % nz))
+        return (st1, pr1), (st2, pr2), neg
     ra, dec = pt
     st1 = "box_point_fl %s (%s, %s) /\\ on_sky (%s, %s)" % (bx, cR(ra), cR(dec), cR(ra), cR(dec))
     sv = "unfold d2r, sinslack; interval with (i_prec 80)"
@@ -474,6 +503,14 @@ def predict(c, i, pt, role):
         lo, hi = np.cos(_d2r(LD(90) + LD(d1))), np.cos(_d2r(LD(90) + LD(d0)))
         v = lo + (hi - lo) * u2
         mra = LD(a0) + (LD(a1) - LD(a0)) * u1
+        if c["system"] == "xyz" and role == "property":
+            x, y, z = (LD(t) for t in pt)
+            ok = (abs(x * x + y * y + z * z - 1) <= 4 * SINSLACK
+                  and np.sin(_d2r(d0)) - SINSLACK <= z <= np.sin(_d2r(d1)) + SINSLACK)
+            if a1 - a0 <= 180.0:
+                ok = ok and (-SINSLACK <= y * np.cos(_d2r(a0)) - x * np.sin(_d2r(a0))
+                             and -SINSLACK <= x * np.sin(_d2r(a1)) - y * np.cos(_d2r(a1)))
+            return bool(ok)
         if c["system"] == "xyz":
             x, y, z = pt
             q = np.sqrt(1 - v * v)
@@ -787,7 +824,9 @@ class SkyDiscrete(ParEntry):
 # cumulative-method sampler
 # ======================================================================================
 
-def _poly(a, b, c2):
+def _poly(a, b, c2=None, c3=None):
+    if a == "gauss":                                     # floor + narrow Gaussian: flat cumulative stretches away from its centre
+        return lambda t: b + np.exp(-0.5 * ((t - c2) / c3) ** 2)
     return lambda t: a + b * t + c2 * t * t
 
 
@@ -948,6 +987,25 @@ class GeneratorEntry(ParEntry):
                 k1 = r.randrange(1, len(c["us"]) - 1)
                 c["split"] = [k1, None, len(c["us"]) - k1 - 1]        # sample(k1), sample() scalar, sample(rest)
                 cs.append(c)
+            # FLAT STRETCHES of the cumulative table (repeated float values: at the start as far as positive densities allow,
+            # in the middle, saturated 1.0 at the end), tabulated and functional, with EXACT deviates: 0.0, 1.0, every distinct
+            # cumulative value of the implementation's table and its two floating-point neighbours.  Non-finite output = failing.
+            for where in ("start", "middle", "end"):
+                n = r.choice([7, 9])
+                x = grid(n, r.choice(["uniform", "integers", "irregular"]))
+                pvals = [r.uniform(0.5, 2.0) for _ in range(n)]
+                lo = {"start": 0, "middle": (n - 3) // 2, "end": n - 3}[where]
+                for k in range(lo, lo + 3):
+                    pvals[k] = 10.0 ** r.uniform(-30, -20)
+                cs.append({"mode": "table", "x": x, "p": pvals, "gen": r.choice(STUBS), "scalar": False, "us": [], "nodes": "exact",
+                           "family": "flat-stretch/%s/table" % where})
+                xs = [float(t) for t in np.linspace(-12.0, 12.0, r.choice([13, 25]))]
+                centre = {"start": 12.0, "middle": r.choice([-12.0, 12.0]) if False else 0.0, "end": -12.0}[where]
+                if where == "middle":                          # two bumps at the ends = flat middle: use a wide grid and centre 0 inverted
+                    centre = 0.0
+                cs.append({"mode": "func_x", "x": xs, "coef": ["gauss", 10.0 ** r.uniform(-24, -20), centre, r.choice([0.7, 1.0])],
+                           "gen": r.choice(STUBS), "scalar": False, "us": [], "nodes": "exact",
+                           "family": "flat-stretch/%s/func_x" % ("both-ends" if where == "middle" else where)})
             # long requests (beyond any plausible internal block size): the count is compared here, the Coq term carries the
             # pairs at both ends, around every power of two, at the extremes of the output and at sampled positions
             for nlong in ((16385,) if ctx.quick() else (16385, 65537, 100003)):      # 2^k + 1: one element beyond every block size 2^j <= 2^k
@@ -1026,7 +1084,14 @@ class GeneratorEntry(ParEntry):
         def f():
             g, _ = build([])
             # deviates exactly equal to tabulated cumulative values (as the implementation holds them)
-            nodes = [float(g.pcum[k]) for k in c["nodes"]]
+            if c["nodes"] == "exact":
+                qs = sorted(set(float(q) for q in g.pcum))
+                nodes = [0.0, 1.0]
+                for q in qs:
+                    nodes += [q, float(np.nextafter(q, -np.inf)), float(np.nextafter(q, np.inf))]
+                nodes = [q for q in nodes if 0.0 <= q <= 1.0]
+            else:
+                nodes = [float(g.pcum[k]) for k in c["nodes"]]
             us = list(c["us"]) + nodes
             if c.get("long"):
                 us = [float(v) for v in np.random.RandomState(c["long_seed"]).random_sample(c["long"])]
@@ -1048,7 +1113,7 @@ class GeneratorEntry(ParEntry):
             if rng is not None and not rng.exhausted():
                 raise AssertionError("deviates not consumed")
             if not _fin(vals):
-                raise FloatingPointError("non-finite sample")
+                raise FloatingPointError("non-finite sample for deviates %r" % [u for u, v in zip(us, vals) if not math.isfinite(v)][:4])
             if c.get("long"):
                 n = len(us)
                 idx = {0, n - 1, int(np.argmin(vals)), int(np.argmax(vals))}
@@ -1057,12 +1122,13 @@ class GeneratorEntry(ParEntry):
                 idx.update(int(i) for i in np.random.RandomState(c["long_seed"] + 1).randint(0, n, 10))
                 idx = sorted(idx)
                 us, vals = [us[i] for i in idx], [vals[i] for i in idx]
-            return {"us": us, "vals": vals, "node_targets": [float(g.xvals[k]) for k in c["nodes"]]}
+            return {"us": us, "vals": vals,
+                    "node_targets": [] if c["nodes"] == "exact" else [float(g.xvals[k]) for k in c["nodes"]]}
         return core.guarded(f)
 
     def term_real(self, c, out):
         x, p = self._table(c)
-        fn = "v_gen_u %s" % ("(536870912 # 1)%Q" if c.get("form") == "f4" else "(1 # 1)%Q")
+        fn = "v_gen_x %s" % ("(536870912 # 1)%Q" if c.get("form") == "f4" else "(1 # 1)%Q")
         if c["mode"] == "cum":
             fn = "v_gen_cum"
         if out[0] == "ok":
@@ -1070,7 +1136,7 @@ class GeneratorEntry(ParEntry):
         return "%s %s %s %s (Err %s)" % (fn, cqlist(p), cqlist(x), cqlist(c["us"] or [0.5]), out[1])
 
     def nontrivial(self, c, out):
-        return out[0] == "ok" and len(c["x"]) >= 3 and len(c["us"]) >= 2
+        return out[0] == "ok" and len(c["x"]) >= 3 and (len(c["us"]) >= 2 or c["nodes"] == "exact")
 
     def show(self, c):
         x, p = self._table(c)
